@@ -309,7 +309,8 @@ Inductive kind :=
 | KTuple                                   (* items: [..] with minItems = maxItems = their number *)
 | KVec (c : seqc) | KVecAny (c : seqc)     (* Vec / Set / fixed-length array, with / without item schema *)
 | KRef (r : ustring)
-| KAny.
+| KAny
+| KOne (tg : tagty).                       (* oneOf converted to a serde enum with this tagging *)
 
 Definition numv_is_none (nv : numv) : bool :=
   match nv with mkNumv None None None None None => true | _ => false end.
@@ -340,6 +341,69 @@ Definition split_type (l : list itype) : option (bool * itype) :=
       end
   | _ => None
   end.
+
+(* ------------------------------------------------------------------ oneOf -> tagged enums (enums.rs)
+   enums.rs:86-205 maybe_externally_tagged_enum, the shape test per branch.  A branch is
+   * "simple":  {"type":"string","enum":[names..]} - one unit variant per name, or
+   * "typed":   {"type":"object","properties":{V:S},"required":[V],"additionalProperties":false} -
+     the variant V whose data is decided by the TYPE S converts to (external_variant).
+   The Rust patterns ignore a few keyword groups (`number: _`, `string: _`, ..., additionalProperties
+   of a typed branch); the fragment wants them absent / `false` (an open typed branch is valid for
+   objects serde rejects).  Constants (`const`) as simple branches are left out. *)
+Definition xsimple (b : schema) : option (list ustring) :=
+  match b with
+  | SObj (Some [TString]) None (Some es) None nv sv ItemsAbsent [] None None None false [] [] None None None None None
+         None None None None None =>
+      if numv_is_none nv && strv_is_none sv
+      then match jstrs es with Some [] => None | o => o end else None
+  | _ => None
+  end.
+
+Definition xtyped (b : schema) : option (ustring * schema) :=
+  match b with
+  | SObj (Some [TObject]) None None None nv sv ItemsAbsent [] None None None false [(v, sc)] [r] (Some (SBool false))
+         None None None None None None None None None =>
+      if numv_is_none nv && strv_is_none sv && ustr_eqb r v then Some (v, sc) else None
+  | _ => None
+  end.
+
+(* the two branch forms, as terms *)
+Definition xsimple_sch (es : list json) : schema :=
+  SObj (Some [TString]) None (Some es) None numv_none strv_none ItemsAbsent [] None None None false [] [] None None None
+       None None None None None None None.
+Definition xbranch (v : ustring) (sc : schema) : schema :=
+  SObj (Some [TObject]) None None None numv_none strv_none ItemsAbsent [] None None None false [(v, sc)] [v]
+       (Some (SBool false)) None None None None None None None None None.
+
+(* the variant names a branch contributes; None = not a branch of an externally tagged enum *)
+Definition xnames (b : schema) : option (list ustring) :=
+  match xsimple b with
+  | Some raws => Some raws
+  | None => match xtyped b with Some (v, _) => Some [v] | None => None end
+  end.
+
+Fixpoint xall_names (bs : list schema) : option (list ustring) :=
+  match bs with
+  | [] => Some []
+  | b :: r => match xnames b, xall_names r with
+              | Some a, Some c => Some (a ++ c)
+              | _, _ => None
+              end
+  end.
+
+Fixpoint nodup_names (l : list ustring) : bool :=
+  match l with [] => true | x :: r => negb (mem_ustr x r) && nodup_names r end.
+
+(* enums.rs:69-230: every branch has the shape and no variant name occurs twice (otherwise the real
+   code goes on to the adjacent / internal / untagged forms) *)
+Definition one_external (bs : list schema) : bool :=
+  match bs with
+  | [] => false
+  | _ => match xall_names bs with Some names => nodup_names names | None => false end
+  end.
+
+Definition one_kind (bs : list schema) : option tagty :=
+  if one_external bs then Some TagExternal else None.
 
 Section Classify.
   Variable ty : option (list itype).
@@ -455,7 +519,16 @@ Section Classify.
     end.
 
   (* (nullable, kind) *)
+  (* convert.rs:468-509: only "oneOf" (and annotations) present -> convert_one_of *)
+  Definition only_one : bool :=
+    is_none ty && is_none fmt && is_none enum && is_none cst && no_array && no_object && no_num && no_str && no_len
+    && is_none ai && is_none mnp && is_none mxp && is_none allo && is_none anyo && is_none no && is_none ref
+    && is_none dflt && is_none title.
+
   Definition classify : option (bool * kind) :=
+    match oneo with
+    | Some bs => if only_one then option_map (fun tg => (false, KOne tg)) (one_kind bs) else None
+    | None =>
     if negb no_extras then None else
     match ty with
     | Some l =>
@@ -471,6 +544,7 @@ Section Classify.
           | None => Some (false, KAny)
           end
         else None
+    end
     end.
 End Classify.
 
@@ -513,6 +587,12 @@ Section Convert.
   Definition append_item (nm : name) : name :=
     match nm with
     | NRequired p | NSuggested p => NSuggested (p ++ [c_uscore] ++ s_item)
+    | NUnknown => NUnknown
+    end.
+  (* lib.rs:168-175 Name::append *)
+  Definition append_name (nm : name) (x : ustring) : name :=
+    match nm with
+    | NRequired p | NSuggested p => NSuggested (p ++ [c_uscore] ++ x)
     | NUnknown => NUnknown
     end.
   (* convert.rs:1802 type_name.append(&format!("item{}", ii)) *)
@@ -594,10 +674,76 @@ Section Convert.
             end
         end.
 
+    (* enums.rs:260-306 external_variant: the variant's data is decided by the converted TYPE *)
+    Definition conv_xvar (nm : name) (v : ustring) (sc : schema) (s : st) : option (vdetails * bool * st) :=
+      match cv sc (append_name nm v) s with
+      | None => None
+      | Some (te, s1) =>
+          match te with
+          | DTuple ts => Some (VTuple ts, false, s1)
+          | DUnit => Some (VSimple, false, s1)
+          | DStruct _ _ ps deny => Some (VStruct ps, deny, s1)
+          | _ => let '(t, s2) := assign te s1 in Some (VItem t, false, s2)
+          end
+      end.
+
+    (* enums.rs:207-245: the variants in branch order; deny_unknown_fields |= deny *)
+    Definition conv_xbranches (nm : name) : list schema -> st -> option (list (ustring * vdetails) * bool * st) :=
+      fix go (bs : list schema) (s : st) {struct bs} : option (list (ustring * vdetails) * bool * st) :=
+        match bs with
+        | [] => Some ([], false, s)
+        | b :: r =>
+            match match b with
+                  | SObj _ _ _ _ _ _ _ _ _ _ _ _ props _ _ _ _ _ _ _ _ _ _ _ =>
+                      match props with
+                      | [(v, sc)] =>
+                          match conv_xvar nm v sc s with
+                          | Some (vd, deny, s1) => Some ([(v, vd)], deny, s1)
+                          | None => None
+                          end
+                      | _ => match xsimple b with
+                             | Some raws => Some (map (fun x => (x, VSimple)) raws, false, s)
+                             | None => None
+                             end
+                      end
+                  | SBool _ => None
+                  end with
+            | None => None
+            | Some (vs1, d1, s1) =>
+                match go r s1 with
+                | None => None
+                | Some (vs2, d2, s2) => Some (vs1 ++ vs2, d1 || d2, s2)
+                end
+            end
+        end.
+
+    (* type_entry.rs:240-343: identifiers, finalize (AllSimpleVariants) *)
+    Definition mk_tagged (n : ustring) (tg : tagty) (rvs : list (ustring * vdetails)) (deny : bool) : option details :=
+      match Sanitize.variant_idents cls (map fst rvs) with
+      | Sanitize.Ok ids =>
+          Some (DEnum n None tg
+                      (map (fun p => mkVariant (fst (fst p)) (snd p) (snd (fst p))) (combine rvs ids))
+                      deny
+                      (if forallb (fun p => match snd p with VSimple => true | _ => false end) rvs
+                       then [AllSimpleVariants] else []))
+      | _ => None
+      end.
+
     Definition conv_kind (k : kind) (nm : name) (items : list schema)
-               (props : list (ustring * schema)) (req : list ustring) (ap : option schema) (s : st)
+               (props : list (ustring * schema)) (req : list ustring) (ap : option schema) (oneo : option (list schema)) (s : st)
       : option (details * st) :=
       match k with
+      | KOne TagExternal =>
+          match type_name nm with
+          | None => None
+          | Some n =>
+              match match oneo with Some bs => conv_xbranches nm bs s | None => None end with
+              | None => None
+              | Some (rvs, deny, s1) =>
+                  match mk_tagged n TagExternal rvs deny with Some d => Some (d, s1) | None => None end
+              end
+          end
+      | KOne _ => None
       | KBool => Some (DBoolean, s)
       | KStr => Some (DString, s)
       | KNull => Some (DUnit, s)
@@ -662,13 +808,13 @@ Section Convert.
        non-null part under the inner name and wraps it (convert_option,
        type_to_option) *)
     Definition conv_node (c : option (bool * kind)) (nm : name) (items : list schema)
-               (props : list (ustring * schema)) (req : list ustring) (ap : option schema) (s : st)
+               (props : list (ustring * schema)) (req : list ustring) (ap : option schema) (oneo : option (list schema)) (s : st)
       : option (details * st) :=
       match c with
       | None => None
-      | Some (false, k) => conv_kind k nm items props req ap s
+      | Some (false, k) => conv_kind k nm items props req ap oneo s
       | Some (true, k) =>
-          match conv_kind k (inner_name nm) items props req ap s with
+          match conv_kind k (inner_name nm) items props req ap oneo s with
           | None => None
           | Some (te, s1) => let '(i, s2) := assign te s1 in Some (DOption i, s2)
           end
@@ -684,7 +830,7 @@ Section Convert.
         fun nm s0 =>
         conv_node conv
           (classify ty fmt enum cst nv sv ik items ai mni mxi uq props req ap mnp mxp allo anyo oneo no ref dflt title)
-          nm items props req ap s0
+          nm items props req ap oneo s0
     end.
 
   (* lib.rs:734-795 convert_ref_type, for the definition [d] with pre-assigned id [t] *)
@@ -765,6 +911,28 @@ Definition u32_ok (o : option N) : bool := match o with Some n => n <? 429496729
 Definition strc_ok (mx mn : option N) (pat : option ustring) : bool :=
   u32_ok mx && u32_ok mn && match pat with Some p => pat_safe p | None => true end.
 
+(* a non-nullable oneOf node *)
+Definition is_one (s : schema) : bool :=
+  match classify_s s with Some (_, KOne _) => true | _ => false end.
+
+(* the payload schemas of the typed branches *)
+Definition xpayloads (bs : list schema) : list schema :=
+  flat_map (fun b => match xtyped b with Some (_, sc) => [sc] | None => [] end) bs.
+
+(* conditions on the payloads of a tagged oneOf under which serde's reading is the schema's:
+   * no `null` payload: enums.rs:279-285 turns it into a UNIT variant, which serialises as the bare
+     name (the schema wants {"V": null}) - modelled, outside the fragment;
+   * the struct payloads are all closed or all open: deny_unknown_fields is accumulated at the ENUM
+     (enums.rs:232) and then holds for every struct variant (the shape of finding C02-F1). *)
+Definition struct_deny (sc : schema) : option bool :=
+  match classify_s sc with Some (false, KStruct d) => Some d | _ => None end.
+Definition payloads_ok (bs : list schema) : bool :=
+  forallb (fun sc => match classify_s sc with Some (false, KNull) => false | _ => true end) (xpayloads bs)
+  && match flat_map (fun sc => match struct_deny sc with Some d => [d] | None => [] end) (xpayloads bs) with
+     | [] => true
+     | d :: r => forallb (Bool.eqb d) r
+     end.
+
 Section Frag.
   Variable cls : Heck.CharClasses.
   Variable keys : list ustring.        (* definition names *)
@@ -773,7 +941,7 @@ Section Frag.
      under the name [nm], the type of [s] itself first *)
   Definition own_names (nm : name) (k : kind) : list ustring :=
     match k with
-    | KEnum _ | KStruct _ | KStrC _ _ _ => match type_name cls nm with Some n => [n] | None => [] end
+    | KEnum _ | KStruct _ | KStrC _ _ _ | KOne _ => match type_name cls nm with Some n => [n] | None => [] end
     | _ => []
     end.
 
@@ -801,6 +969,27 @@ Section Frag.
                    | [] => []
                    | it :: r => names_of it (idx_name nm' i) ++ go r (S i)
                    end) items 0%nat
+            | KOne _ =>
+                (* the typed branches, under Name::append(variant name); a struct payload's own name is
+                   listed although the struct itself is dissolved into the variant (harmless: it only
+                   asks for one more fresh name) *)
+                match oneo with
+                | Some bs =>
+                    (fix go (l : list schema) {struct l} : list ustring :=
+                       match l with
+                       | [] => []
+                       | b :: r =>
+                           match b with
+                           | SObj _ _ _ _ _ _ _ _ _ _ _ _ bprops _ _ _ _ _ _ _ _ _ _ _ =>
+                               match bprops with
+                               | [(v, sc)] => names_of sc (append_name nm' v)
+                               | _ => []
+                               end
+                           | SBool _ => []
+                           end ++ go r
+                       end) bs
+                | None => []
+                end
             | _ => []
             end
         end
@@ -833,6 +1022,11 @@ Section Frag.
                 keys_sorted (map fst props)
                 && forallb (fun r => has_key r props) req
                 && Sanitize.unique (field_idents props)
+                (* an OPTIONAL member whose schema is a tagged oneOf becomes Option<enum>; the validators
+                   Check/Covers.v and Check/Exact.v compare every branch of a union with the inner type of
+                   an Option, which a tagged enum does not pass branch by branch: left out (a limitation of
+                   the validators, not of the converter) *)
+                && forallb (fun kv => mem_ustr (fst kv) req || negb (is_one (snd kv))) props
                 && forallb (fun kv => frag (snd kv)) props
             | KMap =>
                 match ap with
@@ -841,6 +1035,29 @@ Section Frag.
                 end
             | KVec _ | KTuple => forallb frag items
             | KRef r => mem_ustr r keys
+            | KOne _ =>
+                match oneo with
+                | Some bs =>
+                    match xall_names bs with
+                    | Some names => match Sanitize.variant_idents cls names with Sanitize.Ok _ => true | _ => false end
+                    | None => false
+                    end
+                    && payloads_ok bs
+                    && (fix go (l : list schema) {struct l} : bool :=
+                          match l with
+                          | [] => true
+                          | b :: r =>
+                              match b with
+                              | SObj _ _ _ _ _ _ _ _ _ _ _ _ bprops _ _ _ _ _ _ _ _ _ _ _ =>
+                                  match bprops with
+                                  | [(v, sc)] => frag sc
+                                  | _ => true
+                                  end
+                              | SBool _ => true
+                              end && go r
+                          end) bs
+                | None => false
+                end
             | _ => true
             end
         end
@@ -857,6 +1074,24 @@ Fixpoint byval_refs (s : schema) {struct s} : list ustring :=
       | Some (_, KRef r) => [r]
       | Some (_, KStruct _) => flat_map (fun kv => byval_refs (snd kv)) props
       | Some (_, KVec (CArr _)) | Some (_, KTuple) => flat_map byval_refs items      (* [T; n] contains T by value (cycles.rs:169) *)
+      | Some (_, KOne _) =>              (* the variants' data is held by value *)
+          match oneo with
+          | Some bs =>
+              (fix go (l : list schema) {struct l} : list ustring :=
+                 match l with
+                 | [] => []
+                 | b :: r =>
+                     match b with
+                     | SObj _ _ _ _ _ _ _ _ _ _ _ _ bprops _ _ _ _ _ _ _ _ _ _ _ =>
+                         match bprops with
+                         | [(v, sc)] => byval_refs sc
+                         | _ => []
+                         end
+                     | SBool _ => []
+                     end ++ go r
+                 end) bs
+          | None => []
+          end
       | _ => []
       end
   end.
@@ -880,7 +1115,8 @@ Definition def_all_names (cls : Heck.CharClasses) (kv : ustring * schema) : list
   let n := Sanitize.sanitize cls (fst kv) Sanitize.Pascal in
   match names_of cls (snd kv) (NRequired (fst kv)) with
   | m :: r => if match classify_s (snd kv) with
-                 | Some (false, KEnum _) | Some (false, KStruct _) | Some (false, KStrC _ _ _) => true
+                 | Some (false, KEnum _) | Some (false, KStruct _) | Some (false, KStrC _ _ _)
+                 | Some (false, KOne _) => true
                  | _ => false
                  end
               then m :: r            (* the definition itself is the struct/enum/newtype: m = n *)
@@ -909,6 +1145,21 @@ Definition in_frag (cls : Heck.CharClasses) (D : defs) : bool :=
    (convert.rs:63-116 keeps "null" in the type and drops it from nothing): the
    C05 validator Check/Exact.v refuses that shape (rightly).  Documents without
    it: *)
+(* Second shape the C05 validator refuses: a oneOf with ONE typed branch {V: S} whose payload S is a
+   one-string enum / const looks like a tagged union keyed on V (Check/Exact.v common_tag); the
+   converter makes it an externally tagged enum with the single variant V. *)
+Definition pins (sc : schema) : bool :=
+  match sch_enum sc, sch_const sc with
+  | Some [JStr _], None => true
+  | None, Some (JStr _) => true
+  | _, _ => false
+  end.
+Definition no_pinned (bs : list schema) : bool :=
+  match bs with
+  | [b] => match xtyped b with Some (_, sc) => negb (pins sc) | None => true end
+  | _ => true
+  end.
+
 Fixpoint no_nullable_enum (s : schema) {struct s} : bool :=
   match s with
   | SBool _ => true
@@ -918,6 +1169,7 @@ Fixpoint no_nullable_enum (s : schema) {struct s} : bool :=
       | Some (_, KStruct _) => forallb (fun kv => no_nullable_enum (snd kv)) props
       | Some (_, KMap) => match ap with Some vs => no_nullable_enum vs | None => true end
       | Some (_, KVec _) | Some (_, KTuple) => forallb no_nullable_enum items
+      | Some (_, KOne _) => match oneo with Some bs => no_pinned bs | None => true end
       | _ => true
       end
   end.
